@@ -229,7 +229,7 @@ class MappingIsoparametric(Mapping):
         Nref = self.mesh.elem.refdom.normals
 
         invDF = self.invDF(X, tind)
-        N = np.empty((self.dim, len(find)))
+        N = np.zeros((self.dim, len(find)))
 
         for itr in range(Nref.shape[0]):
             ix = np.nonzero(t2f[itr, tind] == find)[0].astype(np.int32)
